@@ -13,10 +13,14 @@ Driver for the definitions REGENERATED from the Python source by `harness/pytran
                                             (SC = off | div C | norm M F; tensors: s X | v N X^N | m N K X^(N·K); X = value deriv)
   numeric.critic OUT C                    → generated CriticBaseline.eval
   numeric.shared R                        → generated SharedBaseline.eval
+  numeric.ppo C VF EL LL OLD R VP ENT NR (ARG VAL)^NR
+                                          → generated PPO loss block (OLD, R gradient-free tensors: s X | v N X^N | m N K …;
+                                            the trailing table is the oracle for `exp` at the NR ratio arguments)
 -/
 import Rl4co.Core.Proto
 import Rl4co.Generated.Numeric
 import Rl4co.Generated.Losses
+import Rl4co.Generated.Ppo
 namespace Rl4co.Driver.Numeric
 open Rl4co.Train
 
@@ -114,11 +118,35 @@ def shared : P String := do
   | none => pure "error=shape"
   | some (v, l) => pure s!"val={tenStr v} loss={ds l}"
 
+def pTenK : P (Ten Rat) := do
+  let t ← tok
+  if t == "s" then (do let x ← pRat; pure (Ten.scalar x))
+  else if t == "v" then (do
+    let n ← pNat; let xs ← pMany pRat n
+    pure (Ten.vec n (fun j => xs.getD j 0)))
+  else if t == "m" then (do
+    let n ← pNat; let k ← pNat; let xs ← pMany pRat (n * k)
+    pure (Ten.mat n k (fun i j => xs.getD (i * k + j) 0)))
+  else failure
+def tenKStr (t : Ten Rat) : String := s!"{t.sh.toStr}:{rsl t.toList}"
+
+def ppo : P String := do
+  let c ← pRat; let vf ← pRat; let el ← pRat
+  let ll ← pTen; let old ← pTenK; let r ← pTenK; let vp ← pTen; let ent ← pTen
+  let nr ← pNat
+  let table ← pMany (do let a ← pRat; let v ← pRat; pure (a, v)) nr
+  atEnd
+  let w : Rat → Rat := fun x => match table.find? (fun p => p.1 == x) with | some p => p.2 | none => 0
+  match Rl4co.Numeric.ppoLoss w c vf el ll old r vp ent with
+  | none => pure "error=shape"
+  | some (loss, sl, vl, ratio, adv) =>
+    pure s!"loss={ds loss} surrogate={ds sl} value={ds vl} ratio={tenStr ratio} adv={tenKStr adv}"
+
 def run (p : P String) (toks : List String) : Option String := (p toks).map (·.1)
 
 def handlers : List (String × (List String → Option String)) :=
   [("numeric.welford", run welford), ("numeric.scale", run scale), ("numeric.ema", run ema),
    ("numeric.alpha", run alpha), ("numeric.mix", run mix), ("numeric.reinforce", run reinforce),
-   ("numeric.critic", run critic), ("numeric.shared", run shared)]
+   ("numeric.critic", run critic), ("numeric.shared", run shared), ("numeric.ppo", run ppo)]
 
 end Rl4co.Driver.Numeric
